@@ -19,7 +19,7 @@ TRUSTED = ["Python's int / datetime / list arithmetic as the value-level referen
 ASSUMPTIONS = ["float operands are left out (the property names ints, timedeltas, triples and formatter objects)"]
 
 BIG = [0, 1, 2, 7, 9, 10, 99, 100, 999, 1000, 2 ** 53 - 1, 2 ** 53, 2 ** 53 + 1, 10 ** 18, 10 ** 30 + 7]
-WRONG = ["x", "", None, [1], (1,), {"a": 1}, {1}, object(), b"1", 1 + 2j, Ellipsis]
+WRONG = ["x", "", None, [1], (1,), {"a": 1}, {1}, object(), b"1", Ellipsis]
 
 
 def snap(o):
@@ -117,8 +117,8 @@ def sweep_datetime(sw, r, tier):
                 w = want()
             except OverflowError:
                 continue
-            if not (1 <= w.year <= 9999):
-                continue
+            if not (1000 <= w.year <= 9999):
+                continue  # years below 1000 are outside the C01 domain (the C library prints them unpadded)
             try:
                 res = fn()
                 sw.check(isinstance(res, Datetime) and res.value == w, "the result of the operator is not the value-level result", {**case, "clause": "datetime-" + op}, str(w), repr(res))
@@ -203,7 +203,7 @@ def sweep_groups(sw, r, tier):
             if k == "serial":
                 vals[nm] = r.choice(BIG); deltas[nm] = r.choice(BIG); want[nm] = vals[nm] + deltas[nm]
             elif k == "datetime":
-                vals[nm] = rand_instant(r).replace(year=r.randint(1500, 8000)); deltas[nm] = rand_delta(r); want[nm] = vals[nm] + deltas[nm]
+                vals[nm] = rand_instant(r).replace(year=r.randint(1500, 8000), day=min(28, r.randint(1, 28))); deltas[nm] = rand_delta(r); want[nm] = vals[nm] + deltas[nm]
             elif k == "naming":
                 vals[nm] = ["data", "engineer"]; deltas[nm] = Naming.from_value(["team", "lead"]); want[nm] = ["data", "engineer", "team", "lead"]
             else:
